@@ -196,6 +196,8 @@ fn ladder_cfg(rng: &mut Rng, i: u64, thorough: bool) -> BuildCfg {
         } else {
             dest
         };
+        // the same file meant by a destination with a redundant separator
+        let dest = if dest.len() < 1000 && rng.chance(1, 6) { respell_with_double_separator(&dest, rng) } else { dest };
         cfg.files.push(FileCfg {
             dest,
             content_kind: if rng.bool() { "noise".into() } else { "text".into() },
